@@ -266,6 +266,9 @@ class TriggerHandlerDecorator(Decorator, ABC):
     async def handle_dispatch(self, data: DispatchData) -> bool | None:
         """Handle a trigger dispatch call. Return False for stop dispatching."""
 
+    def trigger_accepted(self, data: DispatchData) -> None:  # noqa: B027
+        """Called once all trigger handlers have accepted the dispatch."""
+
 
 class CallHandlerDecorator(Decorator, ABC):
     """Base class for call-based handlers."""
